@@ -118,6 +118,25 @@ def count_range(body, blocks, start=0):
     return (r[0], math.inf if inf else r[1])
 
 
+def resolve_capture(t, caps):
+    """What a closure-body term that reads a captured variable denotes where the closure was made: `(*_1).k` is caps[k]; when caps[k] is itself a closure value
+    (a closure handed on to a helper and expanded into this body) `((*_1).k).j` is that closure's j-th capture, and so on.  None when t is not such a read."""
+    t = peel(t)
+    if not (isinstance(t, tuple) and len(t) == 3 and t[0] == "field" and str(t[2]).isdigit()):
+        return None
+    j = int(t[2])
+    base = peel(t[1])
+    if base == ("param", 1):
+        return peel(caps[j]) if j < len(caps) else None
+    outer = resolve_capture(base, caps)
+    if outer is None:
+        return None
+    o = peel(outer, transparent=[])
+    if isinstance(o, tuple) and len(o) >= 4 and o[0] == "agg" and o[1] == "closure" and j < len(o[3]):
+        return peel(o[3][j])
+    return None
+
+
 def once_per_region(body, site_bb, start, stop):
     """`site_bb` is executed exactly once on every path from `start` that reaches a `stop` block (the next loop iteration): every such path passes it (infeasible
     Ok/Err combinations pruned, see Body.reach_ps) and it does not lie on a cycle that avoids the stop blocks."""
